@@ -1,6 +1,6 @@
 (* Props/C12.v — long-running programs do not accumulate closures or heap objects; no use after release.
    Property theorems only; each is closed by `exact <lemma>` (model in Heap/Model.v, proofs in Heap/SlotMap.v,
-   Heap/Lemmas.v, Heap/Monitor.v, Heap/Closure.v, witness in Heap/Witness.v).
+   Heap/Lemmas.v, Heap/Monitor.v, Heap/Closure.v, witnesses in Heap/Witness.v, Heap/WitnessFixed.v).
 
    Reading guide.  A [store] is a slotmap-1.0.7 `SlotMap<DefaultKey, _>` of reference-counted objects
    (`Machine.heap`: HeapObject{refcount,data}; `Machine.closures`: Closure{refcount,is_closed}); a [key] is
@@ -13,7 +13,7 @@
    object is left at count 0 without being freed.  [touches e]: e dereferences its key (retain, release, free, use,
    close).  [count_key w o k tr] / [count_op w o tr]: number of events of kind o on key k / on any key of store w. *)
 From Coq Require Import List NArith.
-From Mimium Require Import Heap.Model Heap.SlotMap Heap.Lemmas Heap.Monitor Heap.Closure Heap.Witness Heap.WitnessUaf.
+From Mimium Require Import Heap.Model Heap.SlotMap Heap.Lemmas Heap.Monitor Heap.Closure Heap.Witness Heap.WitnessFixed.
 Import ListNotations.
 Local Open Scope N_scope.
 
@@ -63,7 +63,7 @@ Proof. exact no_uaf_balanced. Qed.
    frees as many objects as it allocates (per store), the number of live objects after every period equals the
    number after the prefix ("the same after sample N and after sample 2N").
    PARTIAL: nothing here says that the traces of compiled programs have net-zero periods — on the current tree
-   they do not (C12_steady_state_refuted below, KNOWN_FINDINGS F21..F24). *)
+   they do not (C12_steady_state_refuted below, KNOWN_FINDINGS F22..F24). *)
 Theorem C12_steady_state_partial :
   forall (prefix : list event) (periods : list (list event)),
   balanced (prefix ++ concat periods) = true ->
@@ -94,33 +94,28 @@ Theorem C12_closure_ops_replay :
 Proof. exact closure_ops_replay. Qed.
 
 (* REFUTED on the current tree: being balanced (no use after release) does not bound the live objects of compiled
-   programs.  [witness_trace] is the real VM's H2 log of `fn dsp(){ let x = 9.0  let f = | | { x - 5.0 }  f() }`
-   (global initialisation + 3 samples, checked against the real VM on every run): it is accepted by the monitor, its
-   three periods perform the same operations, and the number of live closures is 1, 2, 3 after them. *)
+   programs.  [witness_trace] is the real VM's H2 log of
+     fn ap(f:(float)->float, y:float){ f(y) }  fn nm(z:float){ z*2.0 }  fn dsp(){ ap(nm, 2.0) }
+   (global initialisation + 3 samples, checked against the real VM on every run; known finding F22: a function used as a
+   value is wrapped in a closure, cloned for the call and never released): it is accepted by the monitor, its three
+   periods perform the same operations, and the numbers of live closures and of live heap objects are 1, 2, 3 after
+   them. *)
 Theorem C12_steady_state_refuted :
   exists (prefix p1 p2 p3 : list event),
     balanced (prefix ++ p1 ++ p2 ++ p3) = true
     /\ map shape p1 = map shape p2 /\ map shape p2 = map shape p3
-    /\ (exists m, mrun mach_new (prefix ++ p1) = Some m /\ live_count m SC = 1)
-    /\ (exists m, mrun mach_new (prefix ++ p1 ++ p2) = Some m /\ live_count m SC = 2)
-    /\ (exists m, mrun mach_new (prefix ++ p1 ++ p2 ++ p3) = Some m /\ live_count m SC = 3).
+    /\ (exists m, mrun mach_new (prefix ++ p1) = Some m /\ live_count m SC = 1 /\ live_count m SH = 1)
+    /\ (exists m, mrun mach_new (prefix ++ p1 ++ p2) = Some m /\ live_count m SC = 2 /\ live_count m SH = 2)
+    /\ (exists m, mrun mach_new (prefix ++ p1 ++ p2 ++ p3) = Some m /\ live_count m SC = 3 /\ live_count m SH = 3).
 Proof. exact steady_state_refuted. Qed.
 
-(* REFUTED on the current tree: compiled programs do use a handle after its object was released.  [uaf_trace] is the
-   real VM's H2 log (checked against the real VM on every run) of a type-correct program in which temporary closures
-   share an upvalue cell with an escaping closure (Heap/WitnessUaf.v, known finding F25): the monitor accepts a
-   prefix, then the VM looks up a handle that an allocation of the same trace handed out and whose object has been
-   freed since; the real VM panics right after ("Invalid indirect callable"). *)
-Theorem C12_no_uaf_refuted :
-  exists (tr1 : list event) (e : event) (tr2 : list event) (m1 : mach),
-    uaf_trace = tr1 ++ e :: tr2
-    /\ mrun mach_new tr1 = Some m1
-    /\ e_op e = EProbe /\ e_rc e = None
-    /\ count_key (e_store e) EAlloc (e_key e) tr1 = 1
-    /\ count_key (e_store e) EFree (e_key e) tr1 = 1
-    /\ mstep m1 e = None
-    /\ balanced uaf_trace = false.
-Proof. exact no_uaf_refuted. Qed.
+(* The former witness of the use-after-release finding F25 (temporary closures sharing an upvalue cell with an
+   escaping closure; fixed in vm.rs drop_closure): [former_uaf_trace] is the real VM's H2 log of that program on the
+   current tree (checked against the real VM on every run, which must not panic); every event of it is decoded and
+   the monitor accepts it, so by C12_no_uaf_balanced no handle of it is dereferenced or looked up after its release. *)
+Example C12_former_uaf_witness_accepted :
+  length former_uaf_trace = length former_uaf_trace_raw /\ balanced former_uaf_trace = true.
+Proof. exact former_uaf_trace_accepted. Qed.
 
 (* the hypotheses are satisfiable *)
 Example C12_balanced_example :
